@@ -204,7 +204,13 @@ def run_two_maps(ctx):
             seed[k] = v
     ctx.profile = {"two_maps": True}
     ctx.probe("two_maps_from_one_dict")
-    maps = [BiMap(seed), BiMap(seed)]
+    if ch.coin(1, 2, "second-from-first-map"):
+        # the second map is built from the first one (a BiMap is a mapping): still two independent maps
+        first = BiMap(seed)
+        maps = [first, BiMap(first)]
+        ctx.probe("map_built_from_a_map")
+    else:
+        maps = [BiMap(seed), BiMap(seed)]
     models = [Model(), Model()]
     for m in models:
         for k, v in seed.items():
